@@ -10,6 +10,7 @@ states obligations with ctx.prove(name, cond).  The same harness runs in two mod
   mode 'conc' : inputs are floats taken from a solver model; ordinary execution of the real code (replay)
 """
 import math
+import sys
 import time
 from fractions import Fraction
 
@@ -32,6 +33,7 @@ class Budget(BaseException):
 
 
 CTX = None
+sys.set_int_max_str_digits(0)
 
 
 def cur():
@@ -476,7 +478,10 @@ class SR:
                 atoms, k = self.ll
                 s = zval(k)
                 for a, co in atoms.values():
-                    s = s + zval(co) * a.l10var()
+                    if a.c is not None:
+                        s = s + zval(co) * zval(frac(math.log10(float(a.c))))
+                    else:
+                        s = s + zval(co) * a.l10var()
                 self._t = s
         return self._t
 
@@ -646,29 +651,35 @@ class SR:
         raise Unsupported(f'rpow base {b!r}')
 
     # ---- dB algebra
+    def _exp10_opaque(s):
+        ctx = CTX
+
+        def mk():
+            v = ctx.fresh('p10')
+            ctx.solver.add(v > 0)
+            ctx.positive.add(v.get_id())
+            return SR(t=v)
+        return ctx.fn_app('exp10', s, mk)
+
     def exp10(s):
         if s.c is not None:
             return pow10const(s.c)
         if s.ll is None:
-            ctx = CTX
-
-            def mk():
-                v = ctx.fresh('p10')
-                ctx.solver.add(v > 0)
-                ctx.positive.add(v.get_id())
-                return SR(t=v)
-            return ctx.fn_app('exp10', s, mk)
+            return s._exp10_opaque()
         atoms, k = s.ll
+        for a, c in atoms.values():
+            if (c.denominator != 1 or abs(c) > 8) and abs(c) != Fraction(1, 2):
+                # outside the exact fragment (non-integer power of a symbolic quantity): sound degradation to an
+                # uninterpreted positive value, identified only with applications to an equal argument
+                return s._exp10_opaque()
         res = pow10const(k)
         for a, c in atoms.values():
-            if c.denominator != 1 or abs(c) > 8:
-                if c == Fraction(1, 2):
-                    res = res * a.sqrt()
-                    continue
-                if c == Fraction(-1, 2):
-                    res = res / a.sqrt()
-                    continue
-                raise Unsupported(f'fractional power {c} in 10**x')
+            if c == Fraction(1, 2):
+                res = res * a.sqrt()
+                continue
+            if c == Fraction(-1, 2):
+                res = res / a.sqrt()
+                continue
             n = int(c)
             p = a ** abs(n)
             res = res * p if n > 0 else res / p
@@ -678,7 +689,7 @@ class SR:
         if s.c is not None:
             if s.c <= 0:
                 raise Unsupported('log10 of non-positive constant')
-            return SR(c=log10const(s.c))
+            return _log10_of_const(s.c)
         ctx = CTX
         # decompose monomial/monomial with positive variables into a sum of variable atoms
         try:
@@ -700,7 +711,10 @@ class SR:
                             atoms.pop(key, None)
                         else:
                             atoms[key] = (a, c0)
-                return SR(ll=(atoms, log10const(coef))) if atoms else SR(c=log10const(coef))
+                lc = _log10_of_const(coef)
+                if not atoms:
+                    return lc
+                return SR(ll=(atoms, Fraction(0)))._ll_comb(lc, 1)
         # general positive term: one atom, identified up to rational-function equality
         for key, a0, rf0 in ctx.atoms:
             if rf is not None and rf0 is not None and rf0.equals(rf):
@@ -845,6 +859,10 @@ class SR:
             den = 1
             for a, c in atoms.values():
                 den = den * c.denominator // math.gcd(den, c.denominator)
+            g = 0
+            for a, c in atoms.values():
+                g = math.gcd(g, abs(int(c * den)))
+            den = Fraction(den, g)       # positive scaling: sign preserved, integer coprime exponents
             if all(abs(c * den) <= 8 for a, c in atoms.values()):
                 num = pow10const(k * den)
                 dn = SR(c=Fraction(1))
@@ -1076,6 +1094,61 @@ def pow10const(k):
     return SR(t=ctx.k10[f]) * SR(c=Fraction(10) ** int(fl))
 
 
+_SMALL_PRIMES = [2, 3, 5, 7, 11, 13, 17, 19, 23, 29, 31, 37, 41, 43, 47]
+
+
+def _log10_of_const(c):
+    """log10 of a positive rational, exact: k + sum e_p*log10(p) over small prime factors (constant atoms);
+    10**(...) of the result gives the rational back exactly.  Rationals with other factors become one constant atom."""
+    c = Fraction(c)
+    if c == 1:
+        return SR(c=Fraction(0))
+    atoms = {}
+    k = Fraction(0)
+    num, den = c.numerator, c.denominator
+    # powers of ten first
+    while num % 10 == 0:
+        num //= 10
+        k += 1
+    while den % 10 == 0:
+        den //= 10
+        k -= 1
+    for val, sg in ((num, 1), (den, -1)):
+        for p in _SMALL_PRIMES:
+            e = 0
+            while val % p == 0:
+                val //= p
+                e += 1
+            if e:
+                key = ('c', p)
+                c0 = atoms.get(key, (None, Fraction(0)))[1] + sg * e
+                if c0 == 0:
+                    atoms.pop(key, None)
+                else:
+                    atoms[key] = (SR(c=Fraction(p)), c0)
+        if val != 1:
+            key = ('c', val)
+            c0 = atoms.get(key, (None, Fraction(0)))[1] + sg
+            if c0 == 0:
+                atoms.pop(key, None)
+            else:
+                atoms[key] = (SR(c=Fraction(val)), c0)
+    # 2 and 5 in equal powers are powers of ten: log10(2)+log10(5) = 1
+    if ('c', 2) in atoms and ('c', 5) in atoms:
+        e2, e5 = atoms[('c', 2)][1], atoms[('c', 5)][1]
+        m = min(e2, e5) if e2 > 0 and e5 > 0 else (max(e2, e5) if e2 < 0 and e5 < 0 else 0)
+        if m:
+            k += m
+            for key, e in ((('c', 2), e2 - m), (('c', 5), e5 - m)):
+                if e == 0:
+                    del atoms[key]
+                else:
+                    atoms[key] = (atoms[key][0], e)
+    if not atoms:
+        return SR(c=k)
+    return SR(ll=(atoms, k))
+
+
 def log10const(c):
     x = math.log10(float(c))
     if abs(x - round(x)) < 1e-12 and Fraction(10) ** round(x) == c:
@@ -1109,7 +1182,7 @@ def eq(a, b, tol=TOL):
 def le(a, b, tol=TOL):
     if _is_sym(a) or _is_sym(b):
         return (SR.lift(a) if not isinstance(a, SI) else a) <= b
-    return a <= b + tol * max(abs(a), abs(b))
+    return a <= b + tol * max(abs(a), abs(b)) + 1e-15
 
 
 def ge(a, b, tol=TOL):
@@ -1167,3 +1240,27 @@ def O(xs):
 
 def is_symbolic(x):
     return _is_sym(x)
+
+
+def approx(a, b, rel=1e-9, abs_=0.0):
+    """|a-b| <= rel*|b| + abs_  — for identities that hold up to float-evaluated constants (1e-16) or the 1e-13
+    enclosure of irrational dB constants; the tolerance is part of the obligation in both modes"""
+    if _is_sym(a) or _is_sym(b):
+        a = SR.lift(a)
+        b = SR.lift(b)
+        d = a - b
+        if d.c is not None and b.c is not None:
+            return abs(d.c) <= Fraction(repr(rel)) * abs(b.c) + Fraction(repr(abs_))
+        lim = abs(b) * rel + abs_
+        return And(d <= lim, -d <= lim)
+    return abs(a - b) <= 2 * rel * abs(b) + 2 * abs_ + 1e-300
+
+
+def approx_db(a_db, b_db, tol_db=1e-8):
+    """two dB values equal within tol_db (absolute)"""
+    if _is_sym(a_db) or _is_sym(b_db):
+        d = SR.lift(a_db) - b_db
+        if d.c is not None:
+            return abs(d.c) <= Fraction(repr(tol_db))
+        return And(d <= tol_db, -d <= tol_db)
+    return abs(a_db - b_db) <= 2 * tol_db
